@@ -334,9 +334,13 @@ var (
 )
 
 func init() {
+	kinds = append(kinds, relayKinds...) // relay_test.go
 	seen := map[uint32]bool{}
 	for i, k := range kinds {
 		kindByName[k.Name] = k
+		if k.Relay {
+			relayIdx = append(relayIdx, i)
+		}
 		switch k.Cmd {
 		case agent.COMMAND_OUTPUT, agent.BEACON_OUTPUT, agent.COMMAND_ERROR, agent.DEMON_INFO, agent.COMMAND_PACKAGE_DROPPED, agent.COMMAND_KILL_DATE:
 			genericIdx = append(genericIdx, i)
